@@ -106,10 +106,12 @@ def make_creds(rep, system=False):
     from oslo_context import context
     if system:
         # a system-scoped caller, spelled the way oslo.context spells it
+        # (they also carry a domain id: the system scope is what counts)
         if rep == 'dict':
-            return {'roles': ['r'], 'user_id': 'u', 'system_scope': 'all'}
+            return {'roles': ['r'], 'user_id': 'u', 'system_scope': 'all',
+                    'domain_id': 'd1'}
         ctx = context.RequestContext(user_id='u', roles=['r'],
-                                     system_scope='all')
+                                     system_scope='all', domain_id='d1')
         return ctx if rep == 'context' else ctx.to_policy_values()
     if rep == 'dict':
         return {'roles': ['r'], 'user_id': 'u', 'project_id': 'p1'}
